@@ -376,7 +376,7 @@ def clause_ttl(prog, rep, sites):
         ss = [s for s in sites if (s.fn.path == sq[0].path or s.fn.root == sq[0].path) and s.stmt.kind == "DELETE"]
         okq = any([(c, o) for c, o, r in s.stmt.where] == [("created_at", "<")] for s in ss)
         mp = set(P.normalise(t, {}) for t in P.preds(prog, mm[0]))
-        retain = any(c.name == "retain" for c in mm[0].live_calls())
+        retain = any(c.name == "retain" for g in P.family(prog, mm[0]) for c in g.live_calls())
         # `retain(|_, s| s.created_at >= t)` or the same decision spelled `retain(|_, s| !is_expired(s))` with `created_at < t` negated
         negs = sum(1 for g in P.family(prog, mm[0]) for bb, st in g.stmts() if st.get("k") == "unop" and st.get("op") == "Not")
         okm = retain and ((("created_at", ">=", "?") in mp and negs == 0) or (("created_at", "<", "?") in mp and ("created_at", ">=", "?") not in mp and negs == 1))
